@@ -119,6 +119,7 @@ func checkC20(ck *Check) {
 	ck.floor("C20.R2", "optional-value dereference sites examined", counts["deref"], 10)
 
 	ck.stopCensus("C20.R3", fns)
+	ck.fatalErrorCreation("C20.R3")
 	ck.loopCensus("C20.R4", fns)
 	ck.percentGuards("C20.R5")
 	ck.loopContainment("C20.R6")
@@ -214,6 +215,15 @@ func (ck *Check) optionalOrigin(ctx *Ctx, v ssa.Value) (string, []*Formula, bool
 			last := tup.At(tup.Len() - 1).Type()
 			vt := ctx.Term(x)
 			guards := []*Formula{Not(cmpFormula(token.EQL, vt, nilT))}
+			// an interface result may be non-nil yet hold a nil pointer (typed nil): then `!= nil`
+			// proves nothing about the receiver of a method call
+			if _, isIface := x.Type().Underlying().(*types.Interface); isIface {
+				for _, g := range ck.P.calleesOf(src) {
+					if mayReturnTypedNil(g, x.Index) {
+						guards = nil
+					}
+				}
+			}
 			if types.Identical(last, types.Universe.Lookup("error").Type()) {
 				// err == nil guarantees a result only if every possible callee returns a non-nil
 				// result whenever it returns a nil error (external callees: library contract)
@@ -622,6 +632,46 @@ func (ck *Check) nonNilWhenOK(f *ssa.Function, idx int) bool {
 		}
 		v := r.Results[idx]
 		pc := ctx.BlockPC(b)
+		// look through the interface conversion: the interface is usable iff the pointer inside is non-nil
+		if mi, ok := v.(*ssa.MakeInterface); ok {
+			if _, isPtr := mi.X.Type().Underlying().(*types.Pointer); isPtr {
+				v = mi.X
+			}
+		}
+		// result and error merged from several paths: check them edge by edge
+		if ph, ok := v.(*ssa.Phi); ok && ph.Block() == b {
+			eph, _ := errV.(*ssa.Phi)
+			okEdges := true
+			for i, ev := range ph.Edges {
+				if _, isAlloc := ev.(*ssa.Alloc); isAlloc {
+					continue
+				}
+				// a nil (or unknown) result on this edge is fine only if the error is non-nil on it
+				var ee ssa.Value = errV
+				if eph != nil && eph.Block() == b {
+					ee = eph.Edges[i]
+				}
+				if mi, ok := ee.(*ssa.MakeInterface); ok {
+					_ = mi
+					continue
+				}
+				if c, ok := ee.(*ssa.Call); ok && c.Common().StaticCallee() != nil {
+					n := c.Common().StaticCallee().Name()
+					if n == "New" || n == "Errorf" || n == "Wrap" || n == "Wrapf" {
+						continue
+					}
+				}
+				et := ctx.Term(ee)
+				if imp, _, _ := Entails(ctx.edgePC(b.Preds[i], b), Not(cmpFormula(token.EQL, et, nilT))); imp {
+					continue
+				}
+				okEdges = false
+			}
+			if !okEdges {
+				res = false
+			}
+			continue
+		}
 		switch x := v.(type) {
 		case *ssa.Alloc, *ssa.MakeInterface, *ssa.MakeMap, *ssa.MakeSlice, *ssa.FieldAddr, *ssa.Function, *ssa.MakeClosure:
 			continue
@@ -689,6 +739,53 @@ func receiverNilSafe(f *ssa.Function) bool {
 			}
 		case *ssa.If:
 			if bo, ok := x.Cond.(*ssa.BinOp); ok && (bo.Op == token.EQL || bo.Op == token.NEQ) && (bo.X == ssa.Value(recv) || bo.Y == ssa.Value(recv)) {
+				return true
+			}
+		}
+	}
+	return false
+}
+
+// mayReturnTypedNil: some return of f yields, at result idx, an interface built from a pointer
+// that may be nil.
+func mayReturnTypedNil(f *ssa.Function, idx int) bool {
+	if f == nil || f.Blocks == nil {
+		return false
+	}
+	var mayNil func(v ssa.Value, seen map[ssa.Value]bool) bool
+	mayNil = func(v ssa.Value, seen map[ssa.Value]bool) bool {
+		if seen[v] {
+			return false
+		}
+		seen[v] = true
+		switch x := v.(type) {
+		case *ssa.Const:
+			return x.Value == nil
+		case *ssa.Alloc, *ssa.FieldAddr, *ssa.IndexAddr:
+			return false
+		case *ssa.Phi:
+			for _, e := range x.Edges {
+				if mayNil(e, seen) {
+					return true
+				}
+			}
+			return false
+		case *ssa.Extract:
+			// comma-ok type assertion / map lookup results may be nil
+			switch x.Tuple.(type) {
+			case *ssa.TypeAssert, *ssa.Lookup:
+				return true
+			}
+		}
+		return true // unknown: conservatively may be nil
+	}
+	for _, b := range f.Blocks {
+		r, ok := b.Instrs[len(b.Instrs)-1].(*ssa.Return)
+		if !ok || idx >= len(r.Results) {
+			continue
+		}
+		if mi, ok := r.Results[idx].(*ssa.MakeInterface); ok {
+			if _, isPtr := mi.X.Type().Underlying().(*types.Pointer); isPtr && mayNil(mi.X, map[ssa.Value]bool{}) {
 				return true
 			}
 		}
